@@ -5,6 +5,7 @@ import json, subprocess
 HOOK_COMMITS = ["865d191"]
 
 CHECKS = {
+ "C01": ("exact", "validity predicate as invariant (hi finite => lo finite and hi + lo == hi, hardware cross-checked by exact rounding) over a single-call sweep of 98 public entry points and over generated operation programs (stateful, model-free: invariant after every step, whole program shrinks as one value)", "5 C01"),
  "C02": ("exact", "error-free constructors: hi == RN(a op b) and hi+lo == a op b compared EXACTLY in dyadic arithmetic; new_div by cross-multiplication (no division in the oracle)", "5 C02"),
  "C03": ("exact", "proven relative bounds 3u^2+13u^3 / 2u^2 checked exactly (|r - (a±b)| <= beta|a±b| in dyadic arithmetic) on constructed cancellation / tie / gap operands; Sum vs explicit left fold bit-for-bit", "5 C03"),
  "C04": ("exact", "proven relative bounds 5u^2 / 2u^2 checked exactly against the exact dyadic product; exact points (x0, x±1, x2^k) compared exactly", "5 C04"),
@@ -14,6 +15,7 @@ CHECKS = {
  "C08": ("exact", "reference model: exact floor/ceil/trunc/round-half-away/fract on dyadic rationals; results compared for exact equality, trunc+fract == x", "5 C08"),
  "C09": ("exact", "round-trip and reference model: exact integer values (8/16-bit exhaustive), trunc + range check computed exactly, all routes (TryFrom by value/ref, ToPrimitive, NumCast, FromPrimitive) compared", "5 C09"),
  "C10": ("exact", "metamorphic/differential: every spelling of an operation evaluated on the same operands and compared bit-for-bit (NaN == NaN); algebraic identities compared bit-for-bit with the sign-of-zero known finding K1", "5 C10"),
+ "C11": ("exact", "differential testing of two builds of the same source (default features vs no_std + libm::fma) linked into one process on identical operand words, plus each build's fma against the exactly computed correctly rounded x*y+z", "5 C11"),
  "C12": ("exact", "complete enumeration of the constant table against a 640-bit reference (correct rounding of both words); generated operands for MIN <= x <= MAX and the angle conversions (bound 6u^2 against a 384-bit reference)", "5 C12"),
  "C13": ("exact", "sqrt/cbrt/hypot decided exactly through k-th powers of the result against (1±beta)^k x; powi against 640-bit binary powering with the (6|n|+16)u^2 bound, exact points, no-panic for every i32 incl. i32::MIN, powi(x,-n) == powi(x,n).recip() bit-for-bit", "5 C13"),
  "C14": ("hp", "differential against a 384-bit reference (exp, exp2, expm1, exp(y ln x)) with the property's floors; exact points, overflow/underflow regions, sign/parity/invalid rules, panic = violation; all 2045 integer arguments of exp2 enumerated", "5 C14"),
